@@ -103,7 +103,11 @@ def spec_part(content, mode, encoding):
         data = bytes(content)
         enc_used = encoding or 'iso-8859-1'
     else:
-        text = str(content)
+        if isinstance(content, int) and not isinstance(content, bool):
+            from vmon.core import int_to_text
+            text = int_to_text(content)      # (str() refuses more than 4300 digits; the digits are the content all the same)
+        else:
+            text = str(content)
         if encoding is not None:
             data = text.encode(encoding)
             enc_used = encoding
